@@ -147,6 +147,9 @@ func brokerPayload(tag string) []byte {
 	if tag == "M" {
 		n = 16384 - 8192 - 16
 	}
+	if tag == "HUGE" {
+		n = 20000 // more than a 16 KiB ring holds: cannot arrive through a ring, only inside a CONNECT (will)
+	}
 	b := make([]byte, n)
 	for i := range b {
 		b[i] = tag[i%len(tag)] ^ byte(i*13) ^ byte(i>>8)
